@@ -84,6 +84,17 @@ def make_input(seed, i):
     return case
 
 
+def _mp_helper(pid):
+    """multiprocessing's own long-lived helpers (resource tracker, fork server) are not workers of a call: they are started once per
+    interpreter under the spawn / forkserver start methods and deliberately outlive every pool."""
+    try:
+        with open("/proc/%d/cmdline" % pid, "rb") as f:
+            cmd = f.read().replace(b"\0", b" ")
+    except OSError:
+        return False
+    return b"multiprocessing.resource_tracker" in cmd or b"multiprocessing.forkserver" in cmd
+
+
 def children_of_self():
     out = []
     base = "/proc/%d/task" % os.getpid()
@@ -102,7 +113,7 @@ def children_of_self():
         try:
             with open("/proc/%d/stat" % pid) as f:
                 state = f.read().rsplit(")", 1)[1].split()[0]
-            if state != "Z":
+            if state != "Z" and not _mp_helper(pid):
                 live.append(pid)
         except OSError:
             pass
